@@ -324,6 +324,7 @@ pub fn aframe(cfg: &CCfg, f: &AF, idx: u64) -> (Vec<u8>, Option<Vec<u8>>, bool) 
                     extra: if f.shape & 4 != 0 { 2 } else { 0 },
                     fill: (f.shape >> 4) & 1,
                     corrupt: if corrupt == 0 { 0 } else { 1 + (corrupt - 1) % 9 },
+                    misc: (f.shape as u16).wrapping_mul(0x0101) ^ f.size,
                 };
                 let (b, exp) = ag.build(tag);
                 // MPEG-2 ID bit and channel configuration 0 are structurally valid ADTS that the library documents as unsupported
